@@ -917,8 +917,8 @@ class Body:
         words = tstr.replace('const ', '').replace('static ', '').strip()
         if toks[after].t == '(' and words not in tm and words not in BASE_TYPEMAP and words != 'auto':
             return None     # a call like  foo bar( ... ) cannot be told from a declaration without a known type
-        if toks[after].t == '(' and words in tm and tm[words] in ctx.get('ctor_calls', {}):
-            # R15: local object constructed with arguments
+        if toks[after].t in ('(', '{') and words in tm and tm[words] in ctx.get('ctor_calls', {}):
+            # R15: local object constructed with arguments  T x(args);  or  T x{args};  (a class with a user-provided constructor)
             e = match_fwd(toks, after)
             semi = next_sig(toks, e)
             if toks[semi].t != ';': return None
@@ -928,6 +928,7 @@ class Body:
                   + ([T('op', ','), T('ws', ' ')] + toks[after + 1:e] if strip_ws(toks[after + 1:e]) else []) + [T('op', ')'), T('op', ';')] + toks[semi + 1:]
             self.toks = new
             ctx['locals'][name] = cty0
+            ctx.setdefault('ctor_constructed', set()).add(name)
             if ctor.get('throws'): ctx['throwers'].add(ctor['fn'])
             self.fire('R15obj')
             return s + 3
@@ -1436,7 +1437,19 @@ class Body:
         inserts = []
         for n_, (kind, li, pe) in enumerate(real):
             if n_ in loop_contracts:
-                inserts.append((pe + 1, loop_contracts[n_]))
+                text = loop_contracts[n_]
+                if '@IDX' in text:
+                    # @IDX in a loop contract names the induction variable of THAT for loop (the variable its init clause declares), whatever it is called
+                    if kind != 'for': raise ExtractionBreak('@IDX used on a %s loop in %s' % (kind, self.ctx['fn']['cname']))
+                    p = next_sig(toks, li)
+                    init = []
+                    k = p + 1
+                    while not (toks[k].k == 'op' and toks[k].t in (';', '=')): 
+                        if sig(toks[k]): init.append(toks[k])
+                        k += 1
+                    if len(init) < 2 or init[-1].k != 'id': raise ExtractionBreak('@IDX: cannot find the induction variable of loop %d in %s' % (n_, self.ctx['fn']['cname']))
+                    text = text.replace('@IDX', init[-1].t)
+                inserts.append((pe + 1, text))
         for pos, text in sorted(inserts, reverse=True):
             toks[pos:pos] = [T('ws', '\n'), T('id', text), T('ws', '\n')]
         used = set(n_ for n_ in loop_contracts if n_ < len(real))
@@ -1702,7 +1715,7 @@ def extract_function(fn, unit, repo, filecache, contracts):
     if '@@' in text:
         raise ExtractionBreak('unresolved marker in %s' % fn['cname'])
     for lname, lt in ctx['locals'].items():
-        if lt in unit.get('default_ctors', {}) and lname not in ctx['refs']:
+        if lt in unit.get('default_ctors', {}) and lname not in ctx['refs'] and lname not in ctx.get('ctor_constructed', ()):
             # R15: a local of class type declared without initialiser runs the default constructor
             text, nlc = re.subn(r'(\b%s\s+%s\s*;)' % (re.escape(lt), re.escape(lname)), r'\1 %s(&%s);' % (unit['default_ctors'][lt], lname), text)
             if nlc: body.fire('R15local', nlc)
